@@ -176,6 +176,16 @@ func r8C02(c *ctx) {
 // r8-C03: reasons far longer than a control frame can carry (256 and more, lengths that wrap an 8-bit counter): the
 // body still holds the code and the first 123 bytes
 func r8C03(c *ctx) {
+	// reasons of EVERY length 1..130 that end in a truncated multi-byte sequence (the sender cropped inside a character):
+	// not valid UTF-8, whatever the length
+	for n := 1; n <= 130; n++ {
+		for _, tailSeq := range []string{"\xc3", "\xe2", "\xe2\x82", "\xf0\x9f", "\xf0\x9f\x98"} {
+			if len(tailSeq) > n {
+				continue
+			}
+			c03C(c, 1000, []byte(strings.Repeat("a", n-len(tailSeq))+tailSeq))
+		}
+	}
 	for _, n := range []int{131, 200, 255, 256, 257, 300, 378, 379, 380, 512, 600, 1000, 65535, 65536, 65541} {
 		c03B(c, 1000, []byte(strings.Repeat("r", n)))
 		c03B(c, 4999, []byte(strings.Repeat("\xc3\xa9", n/2)))
